@@ -41,7 +41,7 @@ PROPS = {
         "not_decided": "that the bytes of other streams are untouched (sector ownership is value-level); validity of a handle after its own stream is removed",
     },
     "C05": {
-        "rules": [rules_sink.sink("read"), rules_sink.qual_rule("read"), rules_sink.term("read"), rules_sink.alloc("read"), rules_guard.make("R-INV"), rules_own.make("C05"), rules_follow.make("R-CTOR", "C05"), rules_struct.chainpos("C05"), rules_lock.reacquire("C05"), rules_struct.nochild("C05"), rules_units.units("C05"), rules_struct.wholetable("C05")],
+        "rules": [rules_sink.sink("read"), rules_sink.qual_rule("read"), rules_sink.term("read"), rules_sink.alloc("read"), rules_guard.make("R-INV"), rules_own.make("C05"), rules_follow.make("R-CTOR", "C05"), rules_struct.chainpos("C05"), rules_lock.reacquire("C05"), rules_struct.nochild("C05"), rules_units.units("C05"), rules_struct.wholetable("C05"), rules_struct.walkall("C05")],
         "explanation": "On the read surface (call-graph closure of the read-only API; the write-back path behind the dirty-marker call is cut because the marker is only ever set by Stream::write): "
                        "R-TERM - every natural loop has a termination certificate (finite std iterator, shrinking collection, grow-to-bound, seen-set with refusing exit, checked chain walk with first-sector test, or a named acyclicity invariant); "
                        "R-SINK - every panic-capable site (MIR Assert terminators for bounds/overflow/division, Index/IndexMut calls, unwrap/expect, panic and assertion expansions) is discharged by interval evaluation over MIR operands, by a dominating guard, by an id qualifier, or by an audited table entry whose required guard atoms still dominate it; "
@@ -78,7 +78,7 @@ PROPS = {
         "not_decided": "bit-for-bit equality of state (follows from 'no effect ran' only given that effect-free code is effect-free, which the effect closure establishes for this crate); partial effects of remove_storage_all when a later step is refused by a callee (create_storage_all: an invalid component is refused up front, R-ALLVALID; a later step failing for another reason - the backend - is C13's matter)",
     },
     "C11": {
-        "rules": [rules_sink.sink("mutation"), rules_sink.qual_rule("mutation"), rules_sink.term("mutation"), rules_sink.alloc("mutation"), rules_guard.make("R-INV"), rules_own.make("C11"), rules_follow.make("R-CTOR", "C11"), rules_struct.freelist, rules_entry.slotreset("C11"), rules_struct.chainpos("C11"), rules_lock.reacquire("C11"), rules_struct.nameinv("C11"), rules_struct.lenbound("C11"), rules_struct.nochild("C11"), rules_struct.stalelen("C11"), rules_struct.treetypes("C11"), rules_struct.detach("C11"), rules_units.units("C11"), rules_struct.parenttype("C11"), rules_struct.wholetable("C11"), rules_struct.handlekind("C11")],
+        "rules": [rules_sink.sink("mutation"), rules_sink.qual_rule("mutation"), rules_sink.term("mutation"), rules_sink.alloc("mutation"), rules_guard.make("R-INV"), rules_own.make("C11"), rules_follow.make("R-CTOR", "C11"), rules_struct.freelist, rules_entry.slotreset("C11"), rules_struct.chainpos("C11"), rules_lock.reacquire("C11"), rules_struct.nameinv("C11"), rules_struct.lenbound("C11"), rules_struct.nochild("C11"), rules_struct.stalelen("C11"), rules_struct.treetypes("C11"), rules_struct.detach("C11"), rules_units.units("C11"), rules_struct.parenttype("C11"), rules_struct.wholetable("C11"), rules_struct.handlekind("C11"), rules_io.poskeep, rules_struct.walkall("C11")],
         "explanation": "Same engine as C05 on the mutation surface (every public method, dev profile so that debug assertions and overflow checks count as panics): R-TERM, R-SINK, R-QUAL, R-ALLOC, R-INV, R-CTOR, R-OWN. "
                        "Fields no validator covers (DirEntry.start_sector / stream_len, special FAT values) must reach index sites and raw walks only through the checked accessors or a dominating chain validation; the audit of the sink table found and led to repairs of five panics on damaged-but-accepted files, (the two that had been recorded as known findings, D12 and D14, were repaired in rounds 13 and 14).",
         "not_decided": "as C05; what several handles on one stream, or a handle whose stream was removed and whose slot was re-used, read and write (no panic any more, but no defined meaning either); resource exhaustion by caller-chosen sizes",
@@ -98,7 +98,7 @@ PROPS = {
         "not_decided": "no panic/hang after a failed write on half-updated state (C11's question); that the flushed bytes are the accepted bytes (values)",
     },
     "C15": {
-        "rules": [rules_struct.cutoff, rules_struct.linkend("C15"), rules_guard.make("R-REUSE.consult"), rules_follow.make("R-REUSE"), rules_guard.make("R-CAP"), rules_follow.make("R-FREEOLD", "C15"), rules_own.make("C15"), rules_struct.killread("C15"), rules_mode.rawfield("C15"), rules_struct.linkkeep("C15"), rules_struct.ceil("C15"), rules_struct.dirlen("C15"), rules_guard.make("R-BEGINGUARD"), rules_follow.make("R-FREEREBUILD", "C15"), rules_struct.trimloop("C15"), rules_struct.freebeforeremove("C15"), rules_units.units("C15"), rules_follow.make("R-BLANK"), rules_struct.keepcount("C15"), rules_follow.make("R-FREEALL", "C15"), rules_follow.make("R-CUTTAIL", "C15"), rules_wt.reverse("C15"), rules_struct.growcount("C15"), rules_struct.kindguard("C15"), rules_struct.setlenguard("C15")],
+        "rules": [rules_struct.cutoff, rules_struct.linkend("C15"), rules_guard.make("R-REUSE.consult"), rules_follow.make("R-REUSE"), rules_guard.make("R-CAP"), rules_follow.make("R-FREEOLD", "C15"), rules_own.make("C15"), rules_struct.killread("C15"), rules_mode.rawfield("C15"), rules_struct.linkkeep("C15"), rules_struct.ceil("C15"), rules_struct.dirlen("C15"), rules_guard.make("R-BEGINGUARD"), rules_follow.make("R-FREEREBUILD", "C15"), rules_struct.trimloop("C15"), rules_struct.freebeforeremove("C15"), rules_units.units("C15"), rules_follow.make("R-BLANK"), rules_struct.keepcount("C15"), rules_follow.make("R-FREEALL", "C15"), rules_follow.make("R-CUTTAIL", "C15"), rules_wt.reverse("C15"), rules_struct.growcount("C15"), rules_struct.kindguard("C15"), rules_struct.setlenguard("C15"), rules_struct.freelist],
         "explanation": "R-REUSE: (a) every append path of allocate_sector / allocate_mini_sector / allocate_dir_entry is dominated by the 'nothing free' outcome of the free-list query (guard atoms); (b) every free feeds the list (free_sector => set_fat(FREE) + free_sectors.push on all Ok paths; likewise mini sectors; free_chain frees each visited sector); (c) validate rebuilds both lists from exactly the FREE cells. "
                        "R-CAP: the branch guarding each extension of the mini-stream chain and of the MiniFAT chain has the chain's physical length (Chain::len / num_sectors) in its condition, not only the logical length that shrinks on release. R-FREEOLD: wherever a stream that already has a chain is moved to a freshly started chain (mini<->regular migration), and before a removed stream's entry goes away, the old chain is freed first on every path.",
         "not_decided": "that file size is constant from the second repetition of any net-zero cycle (values of the free lists over histories); LIFO order; truncation of the file (the code has none)",
@@ -362,6 +362,13 @@ _ADDED14 = {
     "C16": " R-WHOLE also requires that a table read from a chain (the MiniFAT) is read as long as the chain is, not capped by what the root entry says. A deviation row names the free marker as the head of the DIFAT chain in the header (defect D25): refused under strict validation, normalised only under permissive validation.",
 }
 for _pid, _txt in _ADDED14.items():
+    PROPS[_pid]["explanation"] = PROPS[_pid]["explanation"] + _txt
+
+_ADDED15 = {
+    "C11": " R-POSKEEP also runs for this property: the audited discharge of `total_len - position` in the handle's arithmetic rests on position <= total_len, which R-POSKEEP maintains (a length re-read after a failed resize without clamping the position makes the next relative seek trip the assertion).",
+    "C15": " R-FREELIST also runs for this property (a free list that is cut instead of filtered after the MiniFAT was trimmed forgets released mini sectors that sit behind the trimmed ones). R-DIRLEN also covers the vector that open_internal hands to Directory::new: popping trailing unallocated entries at load time makes allocate_dir_entry extend a chain that has room.",
+}
+for _pid, _txt in _ADDED15.items():
     PROPS[_pid]["explanation"] = PROPS[_pid]["explanation"] + _txt
 
 
